@@ -669,13 +669,24 @@ func (r *runner) run(dir string) scenResult {
 			// one client identity per call: after an unforced receive the real run may serve the
 			// calls of a model client in another order than the model did
 			cid := fmt.Sprintf("%s.%d", s.C, r.calls)
+			fin := make(chan struct{})
 			go func(s step) {
 				defer r.wg.Done()
+				defer close(fin)
 				r.callVia(s.Via, cid, s.K, s.U, s.P, s.A)
 			}(s)
-			// wait until the request sits in its channel (or the sender is blocked on a full one)
-			for i := 0; i < 2000 && r.lenOf(s.K) == before; i++ {
-				time.Sleep(100 * time.Microsecond)
+			// wait until the request sits in its channel (or has already been answered, or its sender is
+			// blocked on a full channel)
+			deadline := time.Now().Add(250 * time.Millisecond)
+		waitq:
+			for r.lenOf(s.K) == before && time.Now().Before(deadline) {
+				select {
+				case <-fin:
+					break waitq
+				default:
+					runtime.Gosched()
+					time.Sleep(50 * time.Microsecond)
+				}
 			}
 		case "recv":
 			// only meaningful if the dispatcher waits at the idle gate and something is queued (after
